@@ -20,7 +20,10 @@ UNITS = [
     open spec fn process_rel<'a, T: Queryable>(&self, state: State<'a, T>, r: State<'a, T>) -> bool { arg_rel(*self, state, r) }
 """,
          ensures=[("rel", "self.process_rel(step, r)")],
-         body_prefix="proof { T::from_bool_roundtrip(true); T::from_bool_roundtrip(false); }"),
+         body_prefix="let ghost st0 = step; proof { T::from_bool_roundtrip(true); T::from_bool_roundtrip(false); }",
+         # equal multisets: same node count, and a singleton nodelist has the same single node
+         tail_proof="match self { FnArg::Test(t) => { match &**t { Test::RelQuery(v) => { lemma_ms_len(nodes(__r.data), rfc_segs(v@, seq![cur_node(cur_of(st0))], st0.root)); } "
+                    "Test::AbsQuery(q) => { lemma_ms_len(nodes(__r.data), rfc_segs(q.segments@, seq![root_node(st0.root)], st0.root)); } _ => {} } } _ => {} }"),
     Unit(name="custom", file=F, fn="custom", order=51, status="assumed", serves=["C10"],
          why_assumed="Cow<T> arguments and the data type's extension hook (serde_json-specific set functions: C14 is not applicable)",
          requires=[("cur", "is_cur(state)")],
